@@ -198,6 +198,16 @@ theorem report_fields (s s' : P2P) (now : Nat) (h : s.checkChecksumSendInterval 
         subst this
         exact ⟨⟨rfl, rfl, rfl, rfl, rfl, rfl, rfl, rfl, rfl⟩, rfl⟩
 
+theorem waitRec_fields (s s' : P2P) (h : s.checkWaitRecommendation = .ok s') :
+    P2P.SameCore s s' ∧ s'.outgoingLocalInputs = s.outgoingLocalInputs := by
+  unfold P2P.checkWaitRecommendation at h
+  simp only at h
+  split at h
+  · have := pure_ok h; subst this
+    exact ⟨⟨rfl, rfl, rfl, rfl, rfl, rfl, rfl, rfl, rfl⟩, rfl⟩
+  · have := pure_ok h; subst this
+    exact ⟨⟨rfl, rfl, rfl, rfl, rfl, rfl, rfl, rfl, rfl⟩, rfl⟩
+
 theorem compare_fields (s : P2P) :
     P2P.SameCore s s.compareLocalChecksumsAgainstPeers ∧
     s.compareLocalChecksumsAgainstPeers.outgoingLocalInputs = s.outgoingLocalInputs := by
@@ -242,6 +252,42 @@ theorem compare_fields (s : P2P) :
           hc.disconnectFrame⟩, ho⟩
     exact key s.remotes s ⟨P2P.SameCore.refl s, rfl⟩
 
+/-- The comparison only writes the event queue and the endpoints: any predicate insensitive to
+those two fields survives it. -/
+theorem compare_inv (P : P2P → Prop)
+    (hP : ∀ (a : P2P) evs rem, P a → P { a with eventQueue := evs, remotes := rem }) (s : P2P) (h : P s) :
+    P s.compareLocalChecksumsAgainstPeers := by
+  unfold P2P.compareLocalChecksumsAgainstPeers
+  cases hd : s.desync with
+  | none => exact h
+  | some interval =>
+    simp only
+    have key : ∀ (l : List (Nat × Endpoint)) (a : P2P), P a →
+        P (l.foldl (fun s (p : Nat × Endpoint) =>
+          let (evs, checked) := p.2.pendingChecksums.foldl (fun (acc : List Event × List Int) (q : Int × Nat) =>
+            if q.1 ≥ s.sync.lastConfirmedFrame then (acc.1, acc.2)
+            else match alookup q.1 s.localChecksumHistory with
+              | none => (acc.1, acc.2)
+              | some lc =>
+                ((if lc != q.2 then acc.1 ++ [Event.desyncDetected q.1 lc q.2 p.2.peerAddr] else acc.1), acc.2 ++ [q.1]))
+            (([] : List Event), ([] : List Int))
+          let e' := { p.2 with pendingChecksums := p.2.pendingChecksums.filter fun q => !checked.contains q.1 }
+          { s with eventQueue := s.eventQueue ++ evs,
+                   remotes := s.remotes.map fun (a', x) => if a' == p.1 then (a', e') else (a', x) }) a) := by
+      intro l
+      induction l with
+      | nil => intro a ha; exact ha
+      | cons p rest ih =>
+        intro a ha
+        simp only [List.foldl_cons]
+        apply ih
+        exact hP a _ _ ha
+    exact key s.remotes s h
+
+theorem compare_nsf (s : P2P) :
+    s.compareLocalChecksumsAgainstPeers.nextSpectatorFrame = s.nextSpectatorFrame :=
+  compare_inv (fun a => a.nextSpectatorFrame = s.nextSpectatorFrame) (fun _ _ _ h => h) s rfl
+
 /-- Everything a P2P session does to a network-only part of its state (remotes, event queue,
 checksum bookkeeping) leaves the world invariant alone. -/
 theorem DWInv_netOnly {G : Type} (step : G → List (Input × InputStatus) → G) (g0 : G) (s s' : P2P) (x : GS G)
@@ -271,6 +317,7 @@ inductive CWStep {G : Type} (step : G → List (Input × InputStatus) → G) (cs
       s.setInputDelay now handle delay = .ok (s', r) → CWStep step csf (s, x) (s', x)
   | report (s s' : P2P) (x : GS G) (now : Nat) : s.checkChecksumSendInterval now = .ok s' → CWStep step csf (s, x) (s', x)
   | compare (s : P2P) (x : GS G) : CWStep step csf (s, x) (s.compareLocalChecksumsAgainstPeers, x)
+  | waitRec (s s' : P2P) (x : GS G) : s.checkWaitRecommendation = .ok s' → CWStep step csf (s, x) (s', x)
   | tick (s s' : P2P) (x : GS G) (now : Nat) (reqs' : List Request) :
       s.advanceRollbackFrame now [] = .ok (s', reqs') →
       CWStep step csf (s, x)
@@ -323,6 +370,9 @@ theorem CInv2_step {G : Type} (step : G → List (Input × InputStatus) → G) (
     obtain ⟨hc, ho⟩ := compare_fields s
     exact ⟨DWInv_netOnly step g0 s _ x hd hc ho,
       by show CkRel csf s.compareLocalChecksumsAgainstPeers.sync.cells x; rw [hc.sync]; exact hck⟩
+  | waitRec s s' x hw =>
+    obtain ⟨hc, ho⟩ := waitRec_fields s s' hw
+    exact ⟨DWInv_netOnly step g0 s s' x hd hc ho, by show CkRel csf s'.sync.cells x; rw [hc.sync]; exact hck⟩
   | tick s s' x now reqs' hadv =>
     have hfr := gameSaves_frames step csf s.sync.cells.length reqs' x
     have hws : WStep step (s, x) _ := WStep.tick s s' x now reqs' _ hadv hfr
